@@ -191,6 +191,11 @@ func VerifGrokRun() {
 func VerifGrokHistory() {
 	digits := "add_pattern(\"_v\", \"[0-9]+\")\ngrok(_, \"%{_v:val}-\")\n"
 	letters := "add_pattern(\"_v\", \"[a-z]+\")\ngrok(_, \"%{_v:val}-\")\n"
+	if verifnd.Bool() {
+		// the grok call sits in a nested block, the alias is declared outside it
+		digits = "add_pattern(\"_v\", \"[0-9]+\")\nif true {\n for x in [1] {\n  grok(_, \"%{_v:val}-\")\n }\n}\n"
+		letters = "add_pattern(\"_v\", \"[a-z]+\")\nif true {\n for x in [1] {\n  grok(_, \"%{_v:val}-\")\n }\n}\n"
+	}
 	first := verifnd.Int(0, 1) // which of the two is loaded (and run) first
 	run := func(src, msg string) any {
 		scripts, errs := engine.ParseScript(map[string]string{"s.p": src}, funcs.FuncsMap, funcs.FuncsCheckMap)
